@@ -234,6 +234,9 @@ struct Run<'a> {
     algos: Map<String, Value>,
     kinds: [u64; 8],
     max_len: usize,
+    fine: String,
+    /// distinct (operation variant, algorithm logged, payload class) of frames that existed
+    cases: std::collections::HashSet<String>,
 }
 
 impl<'a> Run<'a> {
@@ -258,6 +261,8 @@ impl<'a> Run<'a> {
             algos: Map::new(),
             kinds: [0; 8],
             max_len: 0,
+            fine: format!("{fam}:{variant}@{train}"),
+            cases: Default::default(),
         }
     }
     fn ev(&mut self, e: Value) {
@@ -292,6 +297,7 @@ impl<'a> Run<'a> {
                         e["tag"] = opt(f.first().map(|&b| b as u64));
                         e["err"] = json!("");
                         self.comp_ok += 1;
+                        self.cases.insert(format!("{via}|{}|{}", extra["algo"].as_str().unwrap_or(""), p.cls));
                         self.max_len = self.max_len.max(p.data.len());
                         self.frames.push((id, f));
                         Some(id)
@@ -352,7 +358,7 @@ impl<'a> Run<'a> {
     fn summary(&self) -> Value {
         json!({"compress_ok": self.comp_ok, "compress_refused": self.comp_refused, "decompress_ok": self.dec_ok,
                "decompress_refused": self.dec_refused, "panics": self.panics, "algos": self.algos, "kinds": self.kinds,
-               "max_payload": self.max_len})
+               "max_payload": self.max_len, "fine": self.fine, "distinct": self.cases.len()})
     }
 }
 
@@ -368,7 +374,7 @@ impl Acc {
     fn add(&mut self, subject: &str, s: Value) {
         let cur = self.subjects.entry(subject.to_string()).or_insert_with(|| json!({"runs": 0}));
         cur["runs"] = json!(cur["runs"].as_u64().unwrap_or(0) + 1);
-        for k in ["compress_ok", "compress_refused", "decompress_ok", "decompress_refused", "panics"] {
+        for k in ["compress_ok", "compress_refused", "decompress_ok", "decompress_refused", "panics", "distinct"] {
             cur[k] = json!(cur[k].as_u64().unwrap_or(0) + s[k].as_u64().unwrap_or(0));
         }
         cur["max_payload"] = json!(cur["max_payload"].as_u64().unwrap_or(0).max(s["max_payload"].as_u64().unwrap_or(0)));
@@ -385,6 +391,11 @@ impl Acc {
             kd[i] = cur["kinds"][i].as_u64().unwrap_or(0) + s["kinds"][i].as_u64().unwrap_or(0);
         }
         cur["kinds"] = json!(kd);
+        let mut vs: Vec<Value> = cur["variants"].as_array().cloned().unwrap_or_default();
+        if !vs.contains(&s["fine"]) {
+            vs.push(s["fine"].clone());
+        }
+        cur["variants"] = json!(vs);
     }
 }
 
@@ -553,8 +564,8 @@ fn drive_adaptive(a: &Args, t: &mut Tracer, acc: &mut Acc) {
     for (cn, cfg) in &cfgs {
         for (rn, req) in &reqs {
             let variant = format!("{cn}-{rn}");
-            let subject = format!("adaptive:{variant}");
-            if !sel(a, &subject) {
+            let subject = format!("adaptive:{cn}");
+            if !sel(a, &format!("adaptive:{variant}")) {
                 continue;
             }
             let mut run = Run::new(t, &subject, "adaptive", &variant, "none", json!({}));
@@ -714,8 +725,8 @@ fn drive_realtime(a: &Args, t: &mut Tracer, acc: &mut Acc) {
     for (mn, mode) in modes() {
         for preset in ["with_mode", "nofallback", "conc1", "builder"] {
             let variant = format!("{mn}-{preset}");
-            let subject = format!("realtime:{variant}");
-            if !sel(a, &subject) {
+            let subject = format!("realtime:{mn}");
+            if !sel(a, &format!("realtime:{variant}")) {
                 continue;
             }
             let mut run = Run::new(t, &subject, "realtime", &variant, "none", json!({"mode": mn, "preset": preset}));
@@ -890,8 +901,8 @@ fn make_lz(variant: &str, seed: u64) -> Result<Lz, String> {
 fn drive_simdlz77(a: &Args, t: &mut Tracer, acc: &mut Acc) {
     let maxlen = a.get_u64("lzmax", if a.thorough() { 4096 } else { 1000 }) as usize;
     for variant in ["new", "high_performance", "low_latency", "maximum_parallelism", "with_dictionary", "x1", "x2", "x4", "x8", "global"] {
-        let subject = format!("simdlz77:{variant}");
-        if !sel(a, &subject) {
+        let subject = "simdlz77:inherent".to_string();
+        if !sel(a, &format!("simdlz77:inherent-{variant}")) && !sel(a, &format!("simdlz77:{variant}")) {
             continue;
         }
         let ps = payloads(a, maxlen, &corpus(a.seed, "text")[..600]);
@@ -1019,8 +1030,8 @@ fn drive_fse(a: &Args, t: &mut Tracer, acc: &mut Acc) {
     let ps = payloads(a, maxlen, &[]);
     for cfgn in ["default", "for_pa_zip", "fast_pa_zip"] {
         // stateful object
-        let subject = format!("fse:compressor-{cfgn}");
-        if sel(a, &subject) {
+        let subject = "fse:compressor".to_string();
+        if sel(a, &format!("fse:compressor-{cfgn}")) {
             let mut run = Run::new(t, &subject, "fse", &format!("compressor-{cfgn}"), "none", json!({}));
             let made = guard(|| if cfgn == "default" { es(FseCompressor::new()) } else { es(FseCompressor::with_config(fse_cfg(cfgn))) });
             match made {
@@ -1045,8 +1056,8 @@ fn drive_fse(a: &Args, t: &mut Tracer, acc: &mut Acc) {
             acc.add(&subject, run.summary());
         }
         // a fresh object per payload
-        let subject = format!("fse:fresh-{cfgn}");
-        if sel(a, &subject) {
+        let subject = "fse:fresh".to_string();
+        if sel(a, &format!("fse:fresh-{cfgn}")) {
             for p in &ps {
                 let mut run = Run::new(t, &subject, "fse", &format!("fresh-{cfgn}"), "none", json!({"cls": p.cls}));
                 match guard(|| es(FseCompressor::with_config(fse_cfg(cfgn)))) {
@@ -1069,8 +1080,8 @@ fn drive_fse(a: &Args, t: &mut Tracer, acc: &mut Acc) {
             }
         }
         // free functions with the raw-fallback marker
-        let subject = format!("fse:apply-{cfgn}");
-        if sel(a, &subject) {
+        let subject = "fse:apply".to_string();
+        if sel(a, &format!("fse:apply-{cfgn}")) {
             let cfg = fse_cfg(cfgn);
             let mut run = Run::new(t, &subject, "fse", &format!("apply-{cfgn}"), "none", json!({}));
             run.create(true, "");
@@ -1117,6 +1128,13 @@ fn drive_fse(a: &Args, t: &mut Tracer, acc: &mut Acc) {
 // ---------------------------------------------------------------- groups, parent / child
 
 
+/// file stem of a unit: its first member and the number of members
+fn stem_of(g: &str) -> String {
+    let n = g.split(',').count();
+    let first = sanitize(g.split(',').next().unwrap_or(""));
+    if n > 1 { format!("{first}_and{}", n - 1) } else { first }
+}
+
 fn sanitize(s: &str) -> String {
     s.chars().map(|c| if c.is_ascii_alphanumeric() { c } else { '_' }).collect()
 }
@@ -1137,8 +1155,8 @@ fn sanitize_file(p: &std::path::Path) {
 fn child(a: &Args) {
     let g = a.subject.clone().expect("--subject <group or subject>");
     let fam = g.split(':').next().unwrap_or("").to_string();
-    let mut t = Tracer::new(&a.out, &format!("c02-{}", sanitize(&g)));
-    t.max_events = 1500;
+    let mut t = Tracer::new(&a.out, &format!("c02-{}", stem_of(&g)));
+    t.max_events = 4000;
     let mut acc = Acc { subjects: Map::new() };
     match fam.as_str() {
         "factory" | "direct" => drive_trait(a, &mut t, &mut acc, &fam),
@@ -1154,7 +1172,7 @@ fn child(a: &Args) {
     }
     t.close();
     let v = json!({"events": t.total_events, "runs": t.runs, "subjects": acc.subjects});
-    std::fs::write(a.out.join(format!("sum-{}.json", sanitize(&g))), serde_json::to_vec(&v).unwrap()).expect("child summary");
+    std::fs::write(a.out.join(format!("sum-{}.json", stem_of(&g))), serde_json::to_vec(&v).unwrap()).expect("child summary");
     if a.get("test_crash") == Some(g.as_str()) {
         std::process::abort();
     }
@@ -1163,10 +1181,15 @@ fn child(a: &Args) {
 /// the units run in children (each a subject prefix understood by `sel`)
 fn units(a: &Args) -> Vec<String> {
     let mut u = vec![];
-    for (n, _) in algs() {
+    // the wrappers without own framing logic share a child; the others get one each
+    let safe = |n: &str| !matches!(n, "rans" | "dictionary" | "hybrid");
+    u.push(algs().iter().filter(|(n, _)| safe(n)).map(|(n, _)| format!("factory:{n}")).collect::<Vec<_>>().join(","));
+    for (n, _) in algs().iter().filter(|(n, _)| !safe(n)) {
         u.push(format!("factory:{n}"));
     }
-    for n in ["none", "zstd3", "zstd22", "huffman", "rans", "dictionary", "hybrid", "simdlz77"] {
+    let direct = ["none", "zstd3", "zstd22", "huffman", "rans", "dictionary", "hybrid", "simdlz77"];
+    u.push(direct.iter().filter(|n| safe(n)).map(|n| format!("direct:{n}")).collect::<Vec<_>>().join(","));
+    for n in direct.iter().filter(|n| !safe(n)) {
         u.push(format!("direct:{n}"));
     }
     for c in ["default", "eager"] {
@@ -1175,9 +1198,7 @@ fn units(a: &Args) -> Vec<String> {
     for (m, _) in modes() {
         u.push(format!("realtime:{m}"));
     }
-    for v in ["new", "high_performance", "low_latency", "maximum_parallelism", "with_dictionary", "x1", "x2", "x4", "x8", "global"] {
-        u.push(format!("simdlz77:{v}"));
-    }
+    u.push("simdlz77".to_string());
     for preset in ["default", "fast", "high", "balanced", "realtime", "reference", "reference_hash"] {
         u.push(format!("pazip:{preset}"));
     }
@@ -1186,7 +1207,17 @@ fn units(a: &Args) -> Vec<String> {
     let inside = |x: &str, p: &str| x == p || x.starts_with(&format!("{p}:")) || x.starts_with(&format!("{p}@")) || x.starts_with(&format!("{p}-"));
     match &a.subject {
         None => u,
-        Some(s) => u.into_iter().filter(|x| s.split(',').any(|p| inside(x, p) || inside(p, x))).collect(),
+        Some(s) => u
+            .into_iter()
+            .filter_map(|x| {
+                // keep the members of a unit (a comma list) the caller's patterns touch
+                let keep: Vec<String> = x
+                    .split(',')
+                    .flat_map(|m| s.split(',').filter(move |p| inside(m, p) || inside(p, m)).map(move |p| if inside(m, p) { m.to_string() } else { p.to_string() }))
+                    .collect();
+                if keep.is_empty() { None } else { Some(keep.join(",")) }
+            })
+            .collect(),
     }
 }
 
@@ -1205,15 +1236,7 @@ fn parent(a: &Args) {
                     break;
                 }
                 let name = &us[i];
-                // a caller's pattern narrower than the unit is passed on unchanged
-                let inside = |x: &str, p: &str| x == p || x.starts_with(&format!("{p}:")) || x.starts_with(&format!("{p}@")) || x.starts_with(&format!("{p}-"));
-                let subj = match &a.subject {
-                    Some(s) => {
-                        let narrower: Vec<&str> = s.split(',').filter(|p| inside(p, name) && *p != name.as_str()).collect();
-                        if narrower.is_empty() { name.clone() } else { narrower.join(",") }
-                    }
-                    None => name.clone(),
-                };
+                let subj = name.clone();
                 let mut args: Vec<String> = vec![
                     "--mode".into(), "child".into(), "--seed".into(), a.seed.to_string(), "--tier".into(), a.tier.clone(),
                     "--out".into(), a.out.display().to_string(), "--subject".into(), subj.clone(),
@@ -1224,7 +1247,7 @@ fn parent(a: &Args) {
                 }
                 let t0 = Instant::now();
                 let outcome = run_child(&args, secs, 0, true);
-                let sp = a.out.join(format!("sum-{}.json", sanitize(&subj)));
+                let sp = a.out.join(format!("sum-{}.json", stem_of(&subj)));
                 let mut summ: Value = std::fs::read(&sp).ok().and_then(|b| serde_json::from_slice(&b).ok()).unwrap_or(json!({}));
                 summ["wall_s"] = json!(t0.elapsed().as_secs_f64());
                 let crashed = match outcome {
@@ -1240,7 +1263,7 @@ fn parent(a: &Args) {
                     let mut last_ev = json!({});
                     if let Ok(rd) = std::fs::read_dir(&a.out) {
                         let mut fs: Vec<_> = rd.flatten().map(|f| f.path()).filter(|p| {
-                            p.extension().map_or(false, |e| e == "ndjson") && p.file_name().unwrap().to_string_lossy().starts_with(&format!("c02-{}-", sanitize(&subj)))
+                            p.extension().map_or(false, |e| e == "ndjson") && p.file_name().unwrap().to_string_lossy().starts_with(&format!("c02-{}-", stem_of(&subj)))
                         }).collect();
                         fs.sort();
                         for p in &fs {
@@ -1259,7 +1282,7 @@ fn parent(a: &Args) {
                     ev["after_cls"] = json!(last_ev["cls"].as_str().unwrap_or(""));
                     let fam = last_subject.split(':').next().unwrap_or("").to_string();
                     let variant = last_subject.split(':').nth(1).unwrap_or("").split('@').next().unwrap_or("").to_string();
-                    let mut tr = Tracer::new(&a.out, &format!("c02-crash-{}", sanitize(&subj)));
+                    let mut tr = Tracer::new(&a.out, &format!("c02-crash-{}", stem_of(&subj)));
                     tr.reset("compressor", &last_subject, json!({"fam": fam, "variant": variant, "train": "none", "crash": true}));
                     tr.ev(ev.clone());
                     tr.close();
@@ -1332,8 +1355,9 @@ fn replay(a: &Args) {
     let input = a.input.clone().expect("--in <behaviours>");
     let items = read_ndjson(&input);
     let mut t = Tracer::new(&a.out, "c02-b2");
-    t.max_events = 400;
+    t.max_events = 1200;
     let (mut execs, mut drift_bits, mut drift_valid, mut drift_apply_lz, mut drift_apply_pz) = (0u64, 0u64, 0u64, 0u64, 0u64);
+    let mut drift_model_rt = 0u64;
     let mut kinds_seen = Map::new();
     let mut drift_samples: Vec<Value> = vec![];
     let mut lz: Option<SimdLz77Compressor> = None;
@@ -1347,8 +1371,8 @@ fn replay(a: &Args) {
             let c = kinds_seen.get(&k).and_then(|c| c.as_u64()).unwrap_or(0);
             kinds_seen.insert(k, json!(c + 1));
         }
-        let subject = format!("pazipstream:{what}");
-        if !sel(a, &subject) {
+        let subject = "pazipstream".to_string();
+        if !sel(a, &format!("pazipstream:{what}")) {
             continue;
         }
         execs += 1;
@@ -1380,10 +1404,17 @@ fn replay(a: &Args) {
                     Ok(Err(m)) => {
                         let mut m = m;
                         m.truncate(120);
+                        if it["valid"] == json!(true) && it["model_rt"] == json!(true) {
+                            drift_model_rt += 1;
+                        }
                         t.ev(json!({"op":"codec","api":"matches","ms":sp,"enc_ok":true,"bits_out":bits,"buf_len":buf.len(),"dec_ok":false,"dec":[],"bits_in":0,"err":m}))
                     }
                     Ok(Ok((ms2, bits2))) => {
                         let d: Vec<Value> = ms2.iter().map(match_json).collect();
+                        // prediction of the codec model (MC_PaZipStream with the cfg's LoopBits) against the real codec
+                        if it["valid"] == json!(true) && it["model_rt"].as_bool() != Some(json!(d) == sp && bits2 == bits) {
+                            drift_model_rt += 1;
+                        }
                         t.ev(json!({"op":"codec","api":"matches","ms":sp,"enc_ok":true,"bits_out":bits,"buf_len":buf.len(),"dec_ok":true,"dec":d,"bits_in":bits2,"err":""}))
                     }
                 }
@@ -1472,7 +1503,7 @@ fn replay(a: &Args) {
         &a.out,
         &json!({"mode":"replay","events": t.total_events, "runs": t.runs, "executions": execs, "items": items.len(),
                 "kinds": kinds_seen,
-                "drift": {"bits": drift_bits, "validity": drift_valid, "apply_simdlz77": drift_apply_lz, "apply_pazip_legacy": drift_apply_pz, "samples": drift_samples}}),
+                "drift": {"bits": drift_bits, "validity": drift_valid, "codec_model_prediction": drift_model_rt, "apply_simdlz77": drift_apply_lz, "apply_pazip_legacy": drift_apply_pz, "samples": drift_samples}}),
     );
 }
 
@@ -1532,6 +1563,57 @@ fn census(a: &Args) {
     }
 }
 
+/// developer aid: the small witnesses quoted in known_findings.json, printed (not used by the check)
+fn witness(_a: &Args) {
+    let show = |name: &str, r: Result<Result<Vec<u8>, String>, String>| println!("{name}: {r:?}");
+    // KF1
+    for (tr, x) in [(&b"aab"[..], &b"a"[..]), (b"ab", b"ab"), (b"aaab", b"ab"), (b"abc", b"abc"), (b"aaaaaaab", b"aaaaaaab")] {
+        let c = RansCompressor::new(tr).unwrap();
+        let f = c.compress(x).unwrap();
+        show(&format!("rans train={:?} x={:?}", String::from_utf8_lossy(tr), String::from_utf8_lossy(x)), guard(|| es(c.decompress(&f))));
+    }
+    // KF2
+    let c = HybridCompressor::new(b"abcabcabc").unwrap();
+    let f = c.compress(b"a").unwrap();
+    println!("hybrid frame {f:?}");
+    show("hybrid train=abcabcabc x=a", guard(|| es(c.decompress(&f))));
+    // KF4
+    let mut ad = AdaptiveCompressor::new(AdaptiveConfig::default(), PerformanceRequirements::default()).unwrap();
+    ad.set_algorithm(Algorithm::Zstd(3)).unwrap();
+    show("adaptive zstd3 compress(empty)", guard(|| es(ad.compress(b""))));
+    // KF7
+    let mut lz = SimdLz77Compressor::new().unwrap();
+    let f = SimdLz77Compressor::compress(&mut lz, b"A").unwrap();
+    println!("simdlz77 frame {f:?}");
+    show("simdlz77 x=A", guard(|| es(SimdLz77Compressor::decompress(&mut lz, &f))));
+    // KF9 / KF10
+    let ms = vec![Match::Global { dict_position: 0, length: 6 }];
+    let (buf, bits) = encode_matches(&ms).unwrap();
+    println!("encode_matches([Global(0,6)]) -> {} bytes, {bits} bits; decode_matches -> {:?}", buf.len(), decode_matches(&buf).map(|(m, b)| (m.len(), b)).map_err(|e| e.to_string()));
+    let ms = vec![Match::Far3Long { distance: 1, length: 1073774626 }];
+    let (buf, _) = encode_matches(&ms).unwrap();
+    println!("Far3Long(1, 2^30+32802) -> {:?}", decode_matches(&buf).map_err(|e| e.to_string()));
+    // KF13
+    for x in [&b"ab"[..]] {
+        let _ = x;
+    }
+    let mut r = Rng::new(1);
+    for n in [100usize, 128, 200, 256, 300, 512, 1000] {
+        let x = r.bytes(n);
+        let mut c = FseCompressor::new().unwrap();
+        let f = c.compress(&x).unwrap();
+        let y = c.decompress(&f);
+        println!("fse random {n}: frame {} -> {:?}", f.len(), y.map(|y| y == x).map_err(|e| e.to_string()));
+    }
+    for n in [100usize, 101, 150, 256] {
+        let x: Vec<u8> = (0..n).map(|i| (i % 251) as u8).collect();
+        let mut c = FseCompressor::new().unwrap();
+        let f = c.compress(&x).unwrap();
+        let y = c.decompress(&f);
+        println!("fse ramp {n}: frame {} -> {:?}", f.len(), y.map(|y| y == x).map_err(|e| e.to_string()));
+    }
+}
+
 fn main() {
     quiet_panics();
     let a = Args::parse();
@@ -1540,6 +1622,7 @@ fn main() {
         "child" => child(&a),
         "replay" => replay(&a),
         "census" => census(&a),
+        "witness" => witness(&a),
         m => {
             eprintln!("c02: unknown mode {m}");
             std::process::exit(2)
